@@ -118,6 +118,13 @@ def check(pid, tier, seed):
         mods = [m for m in cfg["lean"] if os.path.exists(os.path.join(leanaudit.LEAN, m.replace(".", "/") + ".lean"))]
         missing_mods = [m for m in cfg["lean"] if m not in mods]
         audit = leanaudit.build_and_audit(mods)
+        if tier == "thorough" and audit["ok"] and mods:
+            # independent re-check of the compiled property modules by leanchecker
+            lrc, lout = leanaudit.run(["lake", "env", "leanchecker"] + mods, leanaudit.LEAN, timeout=3000)
+            audit["leanchecker"] = {"modules": mods, "exit": lrc, "tail": lout[-500:]}
+            if lrc != 0:
+                audit["ok"] = False
+                audit["failures"].append("leanchecker rejected: " + lout[-300:])
         rc, hlog = leanaudit.build_harness()
     if rc != 0:
         path = write_replay(pid, "harness-build", {"property": pid, "kind": "build",
@@ -301,6 +308,7 @@ def write_evidence(pid, tier, seed, audit, results, cov, nviol, wall, notes, n_r
             "endpoint_outcome_distribution": dict(sorted(cov.items())),
             "theorems": [{"name": o[0], "status": o[1], "axioms": o[2]} for o in obligations],
             "proof_failures": audit["failures"],
+            "leanchecker": audit.get("leanchecker", "not run in the quick tier"),
             "notes": notes,
         },
         "assumptions": [
